@@ -28,12 +28,16 @@ RULE = ('one random scene per case: 1-8 point sources in 1-4 clusters (members 1
         'integer dtype or a list (true clusters, merged clusters, one group for all, one group per source, interleaved '
         'membership; in 15 % of the cases of every grouper class), id as permutation of 1..N in several dtypes or '
         'arbitrary unique ids, every documented x/y/flux alias with garbage decoy columns of lower precedence, integer '
-        'x/y/flux columns, per-source local_bkg. non-trivial = the '
+        'x/y/flux columns, per-source local_bkg. Generic axes drawn independently of the class (about half plain): image '
+        'magnitude (fluxes, errors, backgrounds) 1e-4..1e8 and extreme 2**-60..2**40 / 1e-20..1e10, arrays in Fortran / '
+        'strided / offset / big-endian / float32 / transposed-view layout, fit_shape and xy_bounds as list / array / numpy '
+        'ints / scalar, elongated images, extra error map / mask / bounds / units / NDData in any class; class degenerate: '
+        'no detection, off-image source, fully masked window, zero error, constant image. non-trivial = the '
         'scene has >= 2 sources or a masked/trimmed fit window or a binding bound; distinct by digest of (image, '
         'init table, mask, error, options)')
 CLASSES = ['isolated', 'grouped', 'interleaved', 'edge', 'masked', 'nonfinite', 'error', 'localbkg', 'bounds',
            'fixed', 'free_shape', 'finder', 'supplied_group', 'supplied_id', 'maxiters', 'perturbed', 'units',
-           'one_group', 'starved', 'fit_2dgaussian', 'shared_model', 'grouper_only']
+           'one_group', 'starved', 'fit_2dgaussian', 'shared_model', 'degenerate', 'grouper_only']
 MUST_REACH = ['photutils.psf.photometry:PSFPhotometry.__call__',
               'photutils.psf.photometry:PSFPhotometry._prepare_init_params',
               'photutils.psf.photometry:PSFPhotometry._make_psf_model',
@@ -59,7 +63,7 @@ ASSUMPTIONS = ['the PSF model classes themselves are judged by C13 and make_mode
                'astropy TRFLSQFitter / scipy least_squares converge on noise-free data from starts within 0.7 px '
                '(calibrated: see max_deviation)',
                'a recovery failure is attributed to photutils only when an independent fit of the same group (own fit '
-               'windows and ordering, same astropy TRFLSQFitter, numerical Jacobian, same start) does recover the truth; '
+               'windows and ordering, same astropy TRFLSQFitter call, same start) does recover the truth; '
                'otherwise the optimiser left its basin / stopped short and the case is counted under notes.recovery_undecided_* '
                'or notes.scale_relation_undecided_* / notes.permutation_relation_undecided_* (same rule for the image x k and the '
                'row-permutation relations: scipy TRF with x_scale=1 is not '
@@ -240,7 +244,83 @@ def _options(case):
     if cls in ('isolated', 'grouped', 'interleaved', 'masked', 'error', 'localbkg') and rng.random() < 0.12:
         o['int_columns'] = True                       # integer x/y/flux columns (e.g. x_peak from find_peaks)
     o['decoys'] = bool(rng.random() < 0.3)           # lower-precedence alias columns holding garbage
+    _generic_axes(rng, cls, o)
     return o
+
+
+def _generic_axes(rng, cls, o):
+    """Axes drawn independently of the class (tools/generic_axes.txt); about half of the cases stay plain."""
+    # (i) magnitude of the image and of every value-like input (fluxes, error, backgrounds scale with it)
+    k = rng.random()
+    if k < 0.5:
+        o['mag'], o['mag_kind'] = 1.0, 'plain'
+    elif k < 0.8:
+        o['mag'], o['mag_kind'] = float(10.0 ** rng.uniform(-4, 8)), 'moderate'
+    elif k < 0.9:
+        o['mag'], o['mag_kind'] = float(2.0 ** int(rng.integers(-60, 41))), 'pow2_extreme'
+    else:
+        o['mag'], o['mag_kind'] = float(10.0 ** rng.uniform(-20, 10)), 'decimal_extreme'
+    if o['mag'] != 1.0:
+        o['int_columns'] = False
+    # (v) option combinations: every non-default option may join any class
+    plain_cls = cls in ('isolated', 'grouped', 'interleaved', 'edge', 'masked', 'error', 'bounds', 'fixed', 'free_shape',
+                        'supplied_group', 'supplied_id', 'one_group', 'localbkg')
+    if plain_cls:
+        if o['error'] is None and rng.random() < 0.12:
+            o['error'] = _pick(rng, ['random', 'poisson', 'constant'])
+        if o['mask'] is None and rng.random() < 0.10:
+            o['mask'] = 'random'
+        if o['bounds'] is None and rng.random() < 0.10:
+            o['bounds'] = _pick(rng, ['loose', 'tuple'])
+        if (not o['units'] and not o['nddata'] and o['bkg'] in (None, 'column') and not o.get('int_columns')
+                and rng.random() < 0.08):
+            o['units'] = True
+        if not o['units'] and not o['nddata'] and rng.random() < 0.06:
+            o['nddata'] = True
+    # (iii) memory layout / dtype of the arrays handed over
+    o['layout'] = 'plain' if rng.random() < 0.55 else _pick(rng, ['fortran', 'strided', 'offset', 'bigendian',
+                                                                    'float32', 'transposed_view'])
+    # (ii) call form of the scalar / pair arguments
+    o['argform'] = 'plain' if rng.random() < 0.5 else _pick(rng, ['list', 'array', 'npint', 'scalar_if_square'])
+    # (iv) shape
+    o['elongated'] = None if rng.random() < 0.8 else _pick(rng, ['wide', 'tall'])
+
+
+def _lay(a, layout):
+    """(float64 / bool C array of the values, object handed to the library)."""
+    if a is None or layout == 'plain':
+        return a, a
+    if layout == 'float32':
+        if a.dtype == bool:
+            return a, a
+        b = a.astype(np.float32)
+        return b.astype(np.float64), b
+    if layout == 'fortran':
+        return a, np.asfortranarray(a)
+    if layout == 'bigendian':
+        return a, (a if a.dtype == bool else a.astype('>f8'))
+    if layout == 'transposed_view':
+        return a, np.ascontiguousarray(a.T).T
+    if layout == 'strided':
+        big = np.zeros((2 * a.shape[0], 2 * a.shape[1]), dtype=a.dtype)
+        big[::2, ::2] = a
+        return a, big[::2, ::2]
+    big = np.zeros((a.shape[0] + 3, a.shape[1] + 3), dtype=a.dtype)
+    big[2:-1, 2:-1] = a
+    return a, big[2:-1, 2:-1]
+
+
+def _argform(o, value, square_ok=True):
+    f = o.get('argform', 'plain')
+    if f == 'list':
+        return list(value)
+    if f == 'array':
+        return np.array(value)
+    if f == 'npint' and all(isinstance(v, (int, np.integer)) for v in value):
+        return tuple(np.int64(v) for v in value)
+    if f == 'scalar_if_square' and square_ok and value[0] == value[1]:
+        return value[0]
+    return value
 
 
 LABEL_DTYPES = ['int64', 'int64', 'int32', 'int16', 'int8', 'uint8', 'uint16', 'uint32', 'uint64', 'list']
@@ -303,7 +383,8 @@ def _build_scene(case, o):
     if o['bkg'] in ('estimator', 'estimator_plane'):
         dsep = max(dsep, 2 * (9.5 * fwhm * G.FWHM2SIG * 1.2 + 6.0))
     xy, cid, shape = G.gen_clusters(rng, o['sizes'], fwhm, dsep, edge_pad=fit_half + 3 + (
-        9.5 * fwhm * G.FWHM2SIG * 1.2 + 6.0 if o['bkg'] in ('estimator', 'estimator_plane') else 0))
+        9.5 * fwhm * G.FWHM2SIG * 1.2 + 6.0 if o['bkg'] in ('estimator', 'estimator_plane') else 0),
+        elongated=o.get('elongated') if not o['edge'] else None)
     n = len(xy)
     # edge: crop so that the extreme source sits at delta from the chosen edge (delta < 0: off the pixel grid)
     edge_src = None
@@ -338,7 +419,7 @@ def _build_scene(case, o):
     truth = Table()
     truth['x'] = xy[:, 0]
     truth['y'] = xy[:, 1]
-    flux = np.exp(rng.uniform(np.log(50), np.log(500), n))
+    flux = np.exp(rng.uniform(np.log(50), np.log(500), n)) * o.get('mag', 1.0)
     if case.cls in ('isolated', 'grouped') and rng.random() < 0.15:
         flux[int(rng.integers(0, n))] *= -1.0          # negative source: flag 4
     truth['flux'] = flux
@@ -509,7 +590,11 @@ def _run_phot(o, s, model, grouper, data, mask, error, init, bounds, extra_kw=No
         kw['fitter_maxiters'] = o['maxiters']
     if extra_kw:
         kw.update(extra_kw)
-    p = (cls or PSFPhotometry)(model, o['fit_shape'], **kw)
+    if kw.get('xy_bounds') is not None and np.ndim(kw['xy_bounds']) == 1 and None not in tuple(kw['xy_bounds']):
+        kw['xy_bounds'] = _argform(o, tuple(kw['xy_bounds']))
+    elif kw.get('xy_bounds') is not None and np.ndim(kw['xy_bounds']) == 0 and o.get('argform') == 'array':
+        kw['xy_bounds'] = np.float64(kw['xy_bounds'])
+    p = (cls or PSFPhotometry)(model, _argform(o, tuple(o['fit_shape'])), **kw)
     return p, p(data, mask=mask, error=error, init_params=init)
 
 
@@ -520,6 +605,8 @@ def run_case(case):
         return _case_fit2d(case)
     if case.cls == 'shared_model':
         return _case_shared_model(case)
+    if case.cls == 'degenerate':
+        return _case_degenerate(case)
     import astropy.units as u
     from astropy.modeling.fitting import NonFiniteValueError
     from astropy.nddata import NDData, StdDevUncertainty
@@ -610,7 +697,7 @@ def run_case(case):
     bkg_true = np.zeros(n)
     localbkg_estimator = None
     if o['bkg']:
-        b = float(rng.uniform(-20, 50))
+        b = float(rng.uniform(-20, 50)) * o.get('mag', 1.0)
         if o['bkg'] == 'column':
             if o.get('int_columns'):
                 b = float(int(b))
@@ -618,7 +705,7 @@ def run_case(case):
             bkg_true[:] = b
             init['local_bkg'] = bkg_true.astype(np.int64) if o.get('int_columns') else bkg_true
         elif o['bkg'] == 'column_per_source':
-            bkg_true = rng.uniform(-20, 50, n)
+            bkg_true = rng.uniform(-20, 50, n) * o.get('mag', 1.0)
             ped = np.zeros(s.shape)
             for i in range(n):
                 rows, cols, _, _ = O.fit_window(s.shape, fs, xi[i], yi[i])
@@ -632,7 +719,7 @@ def run_case(case):
                 # tilted background: the fit is no longer exact (not demanded); the reported local_bkg must be the
                 # documented sigma-clipped median over the pixels whose centres lie in the annulus
                 yy, xx = np.mgrid[:s.shape[0], :s.shape[1]]
-                data = data + b + rng.uniform(-0.5, 0.5) * xx + rng.uniform(-0.5, 0.5) * yy
+                data = data + b + o.get('mag', 1.0) * (rng.uniform(-0.5, 0.5) * xx + rng.uniform(-0.5, 0.5) * yy)
                 from astropy.stats import SigmaClip
                 sc = SigmaClip(sigma=3.0, maxiters=10)
                 for i in range(n):
@@ -656,6 +743,18 @@ def run_case(case):
             error = np.sqrt(np.abs(s.data) + sc)
         else:
             error = np.full(s.shape, sc)
+
+    # ---- memory layout / dtype of the arrays handed over (values unchanged, float32: the rounded values) -------
+    lay = o.get('layout', 'plain')
+    if o['nonfinite'] or o['perturbed']:
+        lay = lay if lay != 'float32' else 'fortran'
+    data, data_obj = _lay(data, lay)
+    mask, mask_obj = _lay(mask, lay if lay != 'float32' else 'strided')
+    error, err_obj = _lay(error, lay)
+    case.note('axis_layout_' + lay)
+    case.note('axis_magnitude_' + o.get('mag_kind', 'plain'))
+    case.note('axis_argform_' + o.get('argform', 'plain'))
+    case.note('axis_shape_' + str(o.get('elongated')))
 
     # ---- bounds -------------------------------------------------------------------
     bounds = None
@@ -707,17 +806,18 @@ def run_case(case):
 
     # ---- units / containers ------------------------------------------------------------
     unit = None
-    call_data, call_err = data, error
+    call_data, call_err, call_mask = data_obj, err_obj, mask_obj
     if o['units']:
         unit = u.Jy
-        call_data = data * unit
-        call_err = None if error is None else error * unit
+        call_data = data_obj * unit
+        call_err = None if error is None else err_obj * unit
         fl = init[names[2]]
         init[names[2]] = (np.asarray(fl) * 1e3) * u.mJy if rng.random() < 0.5 else np.asarray(fl) * unit
         if 'local_bkg' in init.colnames:
             init['local_bkg'] = np.asarray(init['local_bkg']) * unit
     if o['nddata']:
-        call_data = NDData(data, mask=mask, uncertainty=None if error is None else StdDevUncertainty(error))
+        call_data = NDData(data_obj, mask=mask_obj,
+                           uncertainty=None if error is None else StdDevUncertainty(err_obj))
 
     # ---- finder ------------------------------------------------------------------------
     finder = None
@@ -742,8 +842,8 @@ def run_case(case):
     trimmed_any = any(f['trimmed'] or f['nmasked'] for f in facts)
     case.nontrivial = bool(n >= 2 or trimmed_any or limited.any())
 
-    snap = (data.copy(), None if mask is None else mask.copy(), None if error is None else error.copy(),
-            init.copy())
+    snap = (np.array(data_obj, copy=True), None if mask is None else np.array(mask_obj, copy=True),
+            None if error is None else np.array(err_obj, copy=True), init.copy())
 
     kw = dict(localbkg_estimator=localbkg_estimator, finder=finder, aperture_radius=aper_r)
     kw = {k: v for k, v in kw.items() if v is not None}
@@ -751,7 +851,7 @@ def run_case(case):
         if o['nddata']:
             p, tbl = _run_phot(o, s, model, grouper, call_data, None, None, call_init, bounds, kw)
         else:
-            p, tbl = _run_phot(o, s, model, grouper, call_data, mask, call_err, call_init, bounds, kw)
+            p, tbl = _run_phot(o, s, model, grouper, call_data, call_mask, call_err, call_init, bounds, kw)
     except (ValueError, IndexError) as exc:
         loc = core.exc_location(exc) or ''
         if o['ids'] == 'arbitrary' and (('Inconsistent data column lengths' in str(exc) and loc.endswith(':__call__'))
@@ -772,8 +872,8 @@ def run_case(case):
         return
 
     # inputs untouched (C10 owns this; cheap ride-along so that a mutation cannot silently corrupt the oracle)
-    same_in = (core.exact(data, snap[0]) and (mask is None or np.array_equal(mask, snap[1]))
-               and (error is None or core.exact(error, snap[2])) and init.colnames == snap[3].colnames
+    same_in = (core.exact(np.asarray(data_obj), snap[0]) and (mask is None or np.array_equal(mask_obj, snap[1]))
+               and (error is None or core.exact(np.asarray(err_obj), snap[2])) and init.colnames == snap[3].colnames
                and all(core.exact(_col(init, c), _col(snap[3], c)) for c in init.colnames))
     case.check(same_in, 'inputs_unchanged', mech)
 
@@ -889,7 +989,7 @@ def run_case(case):
                    mech=mech)
     elif o['bkg'] == 'estimator_plane':
         case.close(_col(tbl, 'local_bkg'), bkg_true[R], 'local_bkg_is_clipped_median_of_annulus', rtol=1e-10,
-                   atol=1e-10, mech=mech)
+                   atol=1e-12 * float(peaks.max()), mech=mech)
     else:
         case.check(bool(np.all(_col(tbl, 'local_bkg') == 0)), 'local_bkg_zero_without_estimator', mech)
     # npixfit
@@ -971,19 +1071,24 @@ def run_case(case):
             case.check(pname + '_fit' in tbl.colnames and pname + '_err' in tbl.colnames,
                        'free_shape_parameter_reported', mech, name=pname)
 
+    if hasattr(type(s.model), 'fit_deriv') and getattr(s.model, 'fit_deriv', None) is not None and o['kind'] in (
+            'cgpsf', 'cgpsf_free', 'gpsf', 'gpsf_free') and rng.random() < 0.3:
+        _check_fit_deriv(case, s.model, mech)
+
     # ======================================================================================
     # recovery (noise-free, converging fits only)
     # ======================================================================================
     do_recovery = (not o['perturbed']) and o['maxiters'] is None and grp_ok and o['bkg'] != 'estimator_plane'
     big = (2 * max(s.shape) + 1, 2 * max(s.shape) + 1)
     undecided = set()
+    worst_dev = dict(pos=0.0, flux=0.0)
     if do_recovery:
         pend = {}        # fit group -> list of (what, mech, ok, detail) of its members
         for k in range(n):
             i = R[k]
             if limited_grp[i]:
                 case.note('recovery_not_demanded_bound_limited')
-                if gsize[i] == 1 and getattr(s, 'starved', None) != i:
+                if gsize[i] == 1 and getattr(s, 'starved', None) != i and 1e-2 <= o.get('mag', 1.0) <= 1e4:
                     # a single source whose true position lies beyond a bound ends on that bound
                     out_x = bx is not None and abs(txo[k] - xin[k]) > bx - 1e-3
                     out_y = by is not None and abs(tyo[k] - yin[k]) > by - 1e-3
@@ -1026,11 +1131,12 @@ def run_case(case):
             if not all(okk for (_, _, okk, _, _, _) in lst):
                 # Arbitration: is this the optimiser leaving its basin (not photutils' business) or book-keeping?
                 # Re-fit the group with an independent, straightforward use of the same astropy fitter on
-                # correctly book-kept inputs (own windows, own ordering, numerical Jacobian).  Only when that fit
+                # correctly book-kept inputs (own windows, own ordering, same call mode).  Only when that fit
                 # recovers the truth is the failure attributed to photutils.
                 rows_g = [k for k in range(n) if int(fitgroup[R[k]]) == g]
                 ok_ind = _independent_fit_recovers(model, tbl, rows_g, s, o, data, mask, error, bx, by,
-                                                   txo, tyo, tfo, TOL_ISO if len(rows_g) == 1 else TOL_GRP)
+                                                   txo, tyo, tfo, TOL_ISO if len(rows_g) == 1 else TOL_GRP,
+                                                   shape_truth={q: ttruth[q][R] for q in s.info['free']})
                 if not ok_ind:
                     undecided.add(g)
                     case.note('recovery_undecided_independent_fit_also_left_basin')
@@ -1038,6 +1144,10 @@ def run_case(case):
             for (what, rm, okk, devname, dev, det) in lst:
                 case.dev(devname, dev)
                 case.check(okk, what, rm, **det)
+                if what == 'recovers_position':
+                    worst_dev['pos'] = max(worst_dev['pos'], dev)
+                elif what == 'recovers_flux':
+                    worst_dev['flux'] = max(worst_dev['flux'], dev)
         # residual image ~ 0 wherever the data are usable
         if not limited_grp.any() and not undecided:
             res = np.asarray(_strip(p.make_residual_image(call_data if not o['nddata'] else data, psf_shape=big)))
@@ -1052,7 +1162,12 @@ def run_case(case):
                 tag = 'isolated' if gsize.max() == 1 else 'grouped'
                 case.dev(f'residual_over_peak_{tag}', rr)
                 tol = TOL_ISO if gsize.max() == 1 else TOL_GRP
-                case.check(rr <= tol['resid'], 'residual_image_is_zero', dict(mech, fit=tag), rel=rr)
+                # what the accepted deviations of the table themselves contribute to the residual (first order:
+                # dpos / sigma + dflux, in units of the peak); only matters where the fitter converges loosely
+                # (image magnitude far from 1: absolute gtol of the trusted fitter)
+                prop = 3.0 * (worst_dev['pos'] / (0.3 * s.fwhm) + worst_dev['flux'])
+                case.check(rr <= tol['resid'] + prop, 'residual_image_is_zero', dict(mech, fit=tag), rel=rr,
+                           propagated=prop)
 
     s.undecided = bool(undecided)
     # qfit / cfit from their documented definitions (meaningful only when residuals are not round-off)
@@ -1084,13 +1199,13 @@ def run_case(case):
         rels = [r for r in rels if r in ('iterative', 'model_image', 'permute')]
     for rel in dict.fromkeys(rels):
         if rel == 'separate':
-            _rel_separate(case, o, s, model, grouper, data, mask, error, init, bounds, kw, tbl, R, fitgroup, grp_ok,
+            _rel_separate(case, o, s, model, grouper, data_obj, mask_obj, err_obj, init, bounds, kw, tbl, R, fitgroup, grp_ok,
                           mech)
         elif rel == 'permute' and n >= 2:
             _rel_permute(case, o, s, model, grouper, call_data, mask, call_err, init, bounds, kw, tbl, gsize, R,
                          grp_ok, mech, raw=(data, mask, error))
         elif rel == 'scale_k':
-            _rel_scale(case, o, s, model, grouper, data, mask, error, init, names, bounds, kw, tbl, gsize, R, rel,
+            _rel_scale(case, o, s, model, grouper, data_obj, mask_obj, err_obj, init, names, bounds, kw, tbl, gsize, R, rel,
                        grp_ok, mech, limited_grp)
         elif rel == 'iterative':
             _rel_iterative(case, o, s, model, grouper, call_data, mask, call_err, init, bounds, kw, tbl, mech)
@@ -1098,7 +1213,8 @@ def run_case(case):
             _rel_model_image(case, p, tbl, s, o, model, call_data, data, mech)
 
 
-def _independent_fit_recovers(model, tbl, rows, s, o, data, mask, error, bx, by, txo, tyo, tfo, tol):
+def _independent_fit_recovers(model, tbl, rows, s, o, data, mask, error, bx, by, txo, tyo, tfo, tol,
+                              shape_truth=None):
     """Fit the group made of output rows `rows` from the initial values in the table, with own book-keeping."""
     from astropy.modeling.fitting import TRFLSQFitter
     fs = o['fit_shape']
@@ -1127,7 +1243,10 @@ def _independent_fit_recovers(model, tbl, rows, s, o, data, mask, error, bx, by,
     x, y, z = np.concatenate(xs), np.concatenate(ys), np.concatenate(zs)
     w = np.concatenate(ws) if ws else None
     try:
-        fit = TRFLSQFitter()(comp, x, y, z, weights=w, maxiter=100, estimate_jacobian=True)
+        # same call mode as PSFPhotometry's default fitter (analytic fit_deriv where the model has one): with right
+        # book-keeping the two fits are then the same computation (fit_deriv itself is checked separately against
+        # numerical derivatives: model_fit_deriv_matches_numerical_derivative)
+        fit = TRFLSQFitter()(comp, x, y, z, weights=w, maxiter=100)
     except Exception:  # noqa: BLE001  (the arbiter failing means: undecided)
         return False
     # parameters of the sum are the members' parameter vectors concatenated in order
@@ -1141,7 +1260,40 @@ def _independent_fit_recovers(model, tbl, rows, s, o, data, mask, error, bx, by,
             return False
         if abs(pf / tfo[k] - 1) > tol['flux']:
             return False
+        if shape_truth:
+            if 'theta' in shape_truth:
+                got = [vec[j * P_ + names.index(q)] for q in ('x_fwhm', 'y_fwhm', 'theta')]
+                if _tensor_dev(got, [shape_truth[q][k] for q in ('x_fwhm', 'y_fwhm', 'theta')]) > tol['shape']:
+                    return False
+            else:
+                for q, tv in shape_truth.items():
+                    if abs(vec[j * P_ + names.index(q)] / tv[k] - 1) > tol['shape']:
+                        return False
     return True
+
+
+def _check_fit_deriv(case, model, mech):
+    """The analytic derivatives the default fitter uses == central differences of the model (the recovery oracle
+    relies on them; CircularGaussianPSF once returned only the x_fwhm part of d/dfwhm)."""
+    rng = case.rng
+    names = list(model.param_names)
+    vals = [float(getattr(model, q).value) for q in names]
+    vals[names.index('flux')] = 10.0
+    w = vals[names.index('fwhm')] if 'fwhm' in names else vals[names.index('x_fwhm')]
+    x = rng.uniform(-1.5 * w, 1.5 * w, 40)
+    y = rng.uniform(-1.5 * w, 1.5 * w, 40)
+    ana = model.fit_deriv(x, y, *vals)
+    for j, q in enumerate(names):
+        h = 1e-6 * max(1.0, abs(vals[j]))
+        up, dn = list(vals), list(vals)
+        up[j] += h
+        dn[j] -= h
+        num = (np.asarray(model.evaluate(x, y, *up)) - np.asarray(model.evaluate(x, y, *dn))) / (2 * h)
+        scale = float(np.max(np.abs(num))) + 1e-300
+        case.check(bool(np.all(np.abs(np.asarray(ana[j]) - num) <= 1e-6 * scale)),
+                   'model_fit_deriv_matches_numerical_derivative', dict(mech, param=q),
+                   worst=float(np.max(np.abs(np.asarray(ana[j]) - num)) / scale))
+        case.dev('fit_deriv_vs_numerical', float(np.max(np.abs(np.asarray(ana[j]) - num)) / scale))
 
 
 def _tensor_dev(a, b):
@@ -1306,7 +1458,8 @@ def _rel_scale(case, o, s, model, grouper, data, mask, error, init, names, bound
             # and counts (x_scale = 1): on a one-sided, edge-clipped window it stops short for some image scales.
             rows_g = [kk for (kk, *_rest) in lst]
             tol = dict(pos=max(pt for (*_a, pt) in lst), flux=max(rt for (_, _, _, rt, _, _) in lst))
-            ok_ind = _independent_fit_recovers(model, t2, rows_g, s, o, d2, mask, e2, bx, by, _col(tbl, 'x_fit'),
+            ok_ind = _independent_fit_recovers(model, t2, rows_g, s, o, np.asarray(d2, float), mask,
+                                               None if e2 is None else np.asarray(e2, float), bx, by, _col(tbl, 'x_fit'),
                                                _col(tbl, 'y_fit'), k * _col(tbl, 'flux_fit'), tol)
             if not ok_ind:
                 case.note('scale_relation_undecided_independent_fit_also_stopped_short')
@@ -1442,6 +1595,82 @@ def _check_metrics(case, p, tbl, s, o, model, data, mask, error, facts, R, fitgr
                 cc.append(float(resid[iy, ix] / ff))
             ok = any(abs(cfit[k] - c) <= 1e-6 * abs(c) + 1e-12 for c in cc)
             case.check(ok, 'cfit_vs_definition', mech, row=k, obs=float(cfit[k]), exp=cc)
+
+
+# ----------------------------------------------------------------------------------------
+def _case_degenerate(case):
+    """Rarely used branches: nothing detected, a source entirely off the image, a fully masked fit window, zero
+    errors, a constant image.  Explicit errors of the library are expected; silent cases are counted."""
+    from astropy.table import Table
+    from photutils.detection import DAOStarFinder
+    from photutils.psf import CircularGaussianPRF, PSFPhotometry, SourceGrouper
+    rng = case.rng
+    sub = _pick(rng, ['nothing_detected', 'off_image', 'fully_masked', 'zero_error', 'constant_image'])
+    fwhm = float(rng.uniform(2.0, 4.0))
+    fs = _pick(rng, [(5, 5), (7, 7), (5, 9)])
+    shape = (int(rng.integers(20, 40)), int(rng.integers(20, 60)))
+    mag = float(_pick(rng, [1.0, 1.0, 2.0 ** -30, 1e8]))
+    model = CircularGaussianPRF(fwhm=fwhm)
+    yy, xx = np.mgrid[:shape[0], :shape[1]]
+    n = int(rng.integers(1, 4))
+    tx = rng.uniform(8, shape[1] - 8, n)
+    ty = rng.uniform(8, shape[0] - 8, n)
+    tf = rng.uniform(50, 500, n) * mag
+    data = np.zeros(shape)
+    for i in range(n):
+        data += CircularGaussianPRF(x_0=tx[i], y_0=ty[i], flux=tf[i], fwhm=fwhm)(xx, yy)
+    init = Table({'x': tx + rng.uniform(-0.4, 0.4, n), 'y': ty + rng.uniform(-0.4, 0.4, n), 'flux': tf * 1.1})
+    case.params = dict(kind='degenerate', sub=sub, n=n, shape=list(shape), fit_shape=list(fs), mag=mag)
+    case.digest = core.arr_digest(data, np.asarray(init['x'])) + core.digest(case.params)
+    case.nontrivial = True
+    case.note('axis_degenerate_' + sub)
+    mech = {'cls': case.cls, 'sub': sub}
+    if sub == 'nothing_detected':
+        blank = np.full(shape, float(rng.choice([0.0, 3.0])) * mag)
+        ph = PSFPhotometry(model, fs, finder=DAOStarFinder(threshold=10.0 * mag, fwhm=fwhm), aperture_radius=4.0)
+        out = ph(blank)
+        case.check(out is None, 'no_detection_returns_none', mech, got=type(out).__name__)
+        return
+    if sub == 'off_image':
+        k = int(rng.integers(0, n))
+        init['x'][k] = float(_pick(rng, [-fs[1] / 2 - 1.0 - rng.uniform(0, 30), shape[1] + fs[1] / 2 + rng.uniform(0.6, 30)]))
+        try:
+            PSFPhotometry(model, fs)(data, init_params=init)
+            case.check(False, 'source_without_overlap_is_refused', mech)
+        except ValueError as exc:
+            case.check('no overlap' in str(exc), 'source_without_overlap_is_refused', mech, msg=str(exc)[:120])
+        return
+    if sub == 'fully_masked':
+        k = int(rng.integers(0, n))
+        rows, cols, _, _ = O.fit_window(shape, fs, init['x'][k], init['y'][k])
+        mask = np.zeros(shape, bool)
+        mask[np.ix_(rows, cols)] = True
+        try:
+            PSFPhotometry(model, fs)(data, init_params=init, mask=mask)
+            case.check(False, 'fully_masked_source_is_refused', mech)
+        except ValueError as exc:
+            case.check('completely masked' in str(exc), 'fully_masked_source_is_refused', mech, msg=str(exc)[:120])
+        return
+    if sub == 'zero_error':
+        err = np.full(shape, 0.1 * mag)
+        k = int(rng.integers(0, n))
+        rows, cols, cx, cy = O.fit_window(shape, fs, init['x'][k], init['y'][k])
+        err[int(_pick(rng, list(rows))), int(_pick(rng, list(cols)))] = 0.0
+        try:
+            PSFPhotometry(model, fs)(data, init_params=init, error=err)
+            case.check(False, 'zero_error_in_fit_window_is_refused', mech)
+        except ValueError as exc:
+            case.check('non-finite' in str(exc), 'zero_error_in_fit_window_is_refused', mech, msg=str(exc)[:120])
+        return
+    # constant image: nothing to fit; the table must still have one row per source in input order
+    const = np.full(shape, float(rng.choice([0.0, 1.0, -2.0])) * mag)
+    tbl = PSFPhotometry(model, fs, grouper=SourceGrouper(2.4 * fwhm + 1.5))(const, init_params=init)
+    case.check(tbl is not None and len(tbl) == n, 'one_row_per_source', mech)
+    if tbl is not None and len(tbl) == n:
+        case.check(np.array_equal(_col(tbl, 'id'), np.arange(1, n + 1)), 'ids_are_1_to_N', mech)
+        case.close(_col(tbl, 'x_init'), np.asarray(init['x']), 'rows_in_input_order', mech=dict(mech, col='x_init'))
+        case.check(np.array_equal(_col(tbl, 'npixfit'), np.full(n, fs[0] * fs[1])), 'npixfit_counts_unmasked_window_pixels',
+                   dict(mech, nonfinite=False, mask_given=False))
 
 
 # ----------------------------------------------------------------------------------------
